@@ -154,6 +154,14 @@ def sesCall (s : Runtime) (call : String) : Runtime × String :=
        (s, ";".intercalate evs.reverse)
      | _, _ => (s, "bad-call"))
   | ["I"] => (Runtime.interrupt s, "i")
+  | ["S", run, file] =>
+    -- LOAD / RUN "file": every line through `load_str` (a refused line is skipped), then `set_listing`
+    let lines := if file == "-" then [] else (file.splitOn ",").map strOfHex
+    let listing := lines.foldl (fun (l : Listing) t =>
+      match l.loadStr Lex.lex t with
+      | .ok l' => l'
+      | .error _ => l) {}
+    (Runtime.setListing (mkEnv runLine) s listing (run == "1"), "s")
   | ["D"] => (s, "D{" ++ showCore s ++ "}")
   | ["DP"] => (s, "D{" ++ showFull s ++ "}")
   | ["G"] => (s, "g")
